@@ -7,8 +7,12 @@ for d in "$(pwd)"/seeded/C*/; do
   name=$(basename $d); id=$(echo $name | cut -c1-3 | tr 'A-Z' 'a-z')
   if ! git -C /repo apply --check $d/patch.diff 2>/dev/null; then echo "$name DOES-NOT-APPLY"; continue; fi
   git -C /repo apply $d/patch.diff
+  ID=$(echo $id | tr 'a-z' 'A-Z')
+  # the evidence file describes the unchanged tree: it is put back after the run on the changed one
+  cp evidence/$ID.json /tmp/evidence_$ID.keep 2>/dev/null
   out=$(bin/vcheck $id quick 2>&1); rc=$?
   git -C /repo checkout -- . ; git -C /repo clean -fdq
+  [ -f /tmp/evidence_$ID.keep ] && mv /tmp/evidence_$ID.keep evidence/$ID.json
   n=$(echo "$out" | grep -c "^VIOLATION")
   expected_miss=$(python3 -c "import json;print('yes' if json.load(open('$d/meta.json')).get('caught_by','').startswith('NOT CAUGHT') else 'no')")
   if [ $rc -eq 1 ] && [ $n -gt 0 ]; then echo "$name CAUGHT rc=$rc violations=$n"; elif [ "$expected_miss" = "yes" ]; then echo "$name NOT-CAUGHT (recorded as outside the technique) rc=$rc :: $(echo "$out" | grep '^NOTE' | head -1 | cut -c1-160)"; else echo "$name MISSED rc=$rc violations=$n :: $(echo "$out" | tail -2 | tr '\n' ' ' | cut -c1-200)"; fi
